@@ -220,6 +220,7 @@ def gen_case(rng, tier, k):
     nops = rng.randrange(3, 31)
     allmods = sorted(mods) + missing
     envs = {}
+    env_owner = {}
 
     def scope_of(inst, env):
         m = gm[inst]
@@ -228,7 +229,9 @@ def gen_case(rng, tier, k):
         key = env if share_env else inst + ":" + env
         if key not in envs:
             envs[key] = lang.Scope(m.session, "scratch")
-        envs[key].parent = m.session
+            env_owner[key] = inst
+        if env_owner[key] != inst:
+            return None          # foreign environment: the call is refused
         return envs[key]
 
     def known(scope, prefix, want=None):
@@ -288,6 +291,10 @@ def gen_case(rng, tier, k):
             nm = rng.choice(lists)
             return ["set", nm, ["op", "+", ["v", nm],
                                 ["l", [rng.randrange(9)]]]]
+        if r < 0.83 and strs and glob:
+            # in-place modification of a string value
+            return ["idxset", rng.choice(strs), rng.randrange(0, 3),
+                    rng.choice("jkq")]
         if r < 0.85 and strs:
             nm = rng.choice(strs)
             return ["set", nm, ["op", "+", ["v", nm], ["s", "q"]]]
@@ -323,7 +330,7 @@ def gen_case(rng, tier, k):
             elif r < 0.5:
                 body.append(["def", "loc", gen_expr_int(scope)])
             else:
-                st = gen_state_stmt(scope)
+                st = gen_state_stmt(scope, glob=False)
                 if st[0] == "def":
                     # definitions inside a function are local; use globals
                     st = ["mark", g.fresh("fm")]
@@ -382,6 +389,18 @@ def gen_case(rng, tier, k):
         if host != "repl" and rng.random() < (0.4 if share_env else 0.15):
             env = rng.choice(["E1", "E2"])
         scope = scope_of(inst, env)
+        if scope is None:
+            # this interpreter is handed an environment that belongs to
+            # the other one
+            owner_scope = envs[env]
+            names_there = sorted(owner_scope.names())
+            what = ["expr", ["v", rng.choice(names_there)]] \
+                if names_there and rng.random() < 0.7 else \
+                rng.choice([["mark", g.fresh("fe")], ["def", "i_a", 1],
+                            ["expr", 1]])
+            case["ops"].append({"kind": "cmd", "inst": inst, "env": env,
+                                "stmts": [what], "faults": []})
+            continue
         r = rng.random()
         op = None
         if r < 0.05:
@@ -393,13 +412,26 @@ def gen_case(rng, tier, k):
             op = {"kind": "clock", "jump": rng.choice(
                 [-86400 * 400, -3600, 1, 3600, 86400 * 365 * 3])}
         elif r < 0.18 and last_cmd is not None:
-            op = copy.deepcopy(last_cmd)
-            op["repeat"] = True
-            if rng.random() < 0.5:
+            if rng.random() < 0.45:
+                # re-issue some earlier command text verbatim (possibly on
+                # the other instance): same text, same file name
+                earlier = [o for o in case["ops"] if o["kind"] == "cmd"]
+                op = copy.deepcopy(rng.choice(earlier))
                 op["faults"] = []
+                op.pop("repeat", None)
+                if host != "repl":
+                    op["inst"] = rng.choice(insts)["name"]
+            else:
+                op = copy.deepcopy(last_cmd)
+                op["repeat"] = True
+                if rng.random() < 0.5:
+                    op["faults"] = []
             inst, env = op["inst"], op["env"]
             m = gm[inst]
             scope = scope_of(inst, env)
+            if scope is None:
+                case["ops"].append(op)
+                continue
         else:
             stmts = []
             kind = rng.choice(
@@ -447,10 +479,10 @@ def gen_case(rng, tier, k):
             elif kind == "loopabort":
                 nloop = rng.randrange(2, 6)
                 j = rng.randrange(0, nloop + 1)
-                body = [gen_state_stmt(scope),
+                body = [gen_state_stmt(scope, glob=False),
                         ["if", ["op", "==", ["v", "k_i"], j],
                          [gen_fail_stmt()], None],
-                        gen_state_stmt(scope)]
+                        gen_state_stmt(scope, glob=False)]
                 body = [b for b in body if b[0] != "def"] or [
                     ["mark", g.fresh("lm")]]
                 stmts.append(["for", "k_i",
